@@ -440,6 +440,9 @@ def run(ctx):
                 r7.violation(r.origin["key"], "certificate/log formatting: needs %s <= %s, which nothing establishes" % (lhs, rhs), loc=r.origin["loc"])
     if nhd < 1:
         raise Broken("C07.R7: no use of hash_description found")
+    # the peer certificate's names are joined into one string for tls.peer_names
+    from . import C10 as c10
+    c10.check_join_size(P, r7)
 
 
 def check_read_lengths(P, eng, r5):
